@@ -99,7 +99,11 @@ func vfC04(w *vfWorld) {
 			id.groups = nil
 		}
 		claims[cs.EmailClaim] = id.email
-		if id.groups == nil {
+		if tk.Values == "empty-groups" {
+			// the claim is PRESENT and empty (all memberships revoked): no profile fallback, no groups
+			id.groups = []string{}
+			claims[cs.GroupsClaim] = []string{}
+		} else if id.groups == nil {
 			id.groups = []string{"from-profile"} // the token lacks the claim: the profile endpoint supplies it
 		} else {
 			if tk.Values == "single-group-string" {
@@ -210,7 +214,7 @@ func vfC04(w *vfWorld) {
 		tk.Aud = []string{"client", "list-with-client", "extra", "list-without-client", "other", "prefix", "number", "absent"}[t.Weighted("c04.aud", 8, 3, 2, 1, 1, 1, 1, 1)]
 		tk.Exp = []string{"future", "past", "just-past", "boundary"}[t.Weighted("c04.exp", 12, 2, 1, 1)]
 		tk.Verified = []string{"true", "absent", "false", "string-true", "string-false"}[t.Weighted("c04.verified", 8, 2, 2, 1, 1)]
-		tk.Values = []string{"plain", "unicode", "single-group-string", "no-groups"}[t.Weighted("c04.values", 8, 2, 1, 1)]
+		tk.Values = []string{"plain", "unicode", "single-group-string", "no-groups", "empty-groups"}[t.Weighted("c04.values", 8, 2, 1, 1, 2)]
 		tk.Missing = []string{"", "groups", "preferred_username"}[t.Weighted("c04.missing", 8, 1, 1)]
 		ok := true
 		why := func(s string) { ok = false; tk.Reason += s + ";" }
